@@ -33,12 +33,21 @@ OptsOf(tool) ==
   ELSE {Opts(FALSE, "condense_all", "default")}
 
 \* one homogeneous event shape (unused fields at a default)
-E(ph, ok, via, k, res, n, lines, doc, code) ==
-  [ph |-> ph, ok |-> ok, via |-> via, k |-> k, res |-> res, n |-> n, lines |-> lines, doc |-> doc, code |-> code]
-ArgsEv == {E("args", b, "", "", "", 0, 0, "", 0) : b \in BOOLEAN}
+\* (one policy option stands for all of them: they are resolved by the same rule)
+NoPol == [opt |-> ""]
+Given == [{"opt"} -> {"", "p", "q"}]                       \* what the user wrote for it on the command line / in [defaults]
+Pols == [{"opt"} -> {"p", "q", Builtin("", "opt")}]        \* the policy a library call can be made under
+EP(ph, ok, via, k, res, n, lines, doc, code, cli, cfg, policy) ==
+  [ph |-> ph, ok |-> ok, via |-> via, k |-> k, res |-> res, n |-> n, lines |-> lines, doc |-> doc, code |-> code,
+   cli |-> cli, cfg |-> cfg, policy |-> policy]
+E(ph, ok, via, k, res, n, lines, doc, code) == EP(ph, ok, via, k, res, n, lines, doc, code, NoPol, NoPol, NoPol)
+ArgsEv == {EP("args", TRUE, "", "", "", 0, 0, "", 0, cli, cfg, NoPol) : cli \in Given, cfg \in Given}
+          \cup {E("args", FALSE, "", "", "", 0, 0, "", 0)}
 ValidateEv == {E("validate", b, "", "", "", 0, 0, "", 0) : b \in BOOLEAN}
 LoadEv == {E("load", b, v, "", "", 0, 0, "", 0) : b \in BOOLEAN, v \in Deliveries}
-WorkEv == {E("work", TRUE, "", k, "", n, 0, "", 0) : k \in GetKinds \cup {"same", "differs", "needindex", "results", "badexpr"}, n \in 0..MaxN}
+WorkEv == {E("work", TRUE, "", k, "", n, 0, "", 0) : k \in GetKinds \cup {"needindex", "results", "badexpr"}, n \in 0..MaxN}
+          \cup {EP("work", TRUE, "", k, "", n, 0, "", 0, NoPol, NoPol, pol) : k \in {"same", "differs"}, n \in 0..MaxN, pol \in Pols}
+          \cup {EP("work", TRUE, "", "merge", r, 0, 0, "", 0, NoPol, NoPol, pol) : r \in {"ok", "yperr", "mergeerr"}, pol \in Pols}
           \cup {E("work", TRUE, "", k, r, n, 0, "", 0) : k \in {"gather", "check", "apply", "merge"},
                   r \in {"ok", "unmatched", "yperr", "nodoc", "mismatch", "mergeerr"}, n \in {0}}
 OutputEv == {E("output", TRUE, "", "", "", 0, l, d, 0) : l \in 0..(MaxN * MaxLoads), d \in {"none", "written"}}
@@ -53,8 +62,11 @@ Init == /\ \E tool \in Tools : \E o \in OptsOf(tool) : st = Init0(tool, o)
 Works(h) == Len(SelectSeq(h, LAMBDA x : x.ph = "work"))
 Within(n, e) == /\ n.nload <= MaxLoads /\ n.lib.n <= MaxN * MaxLoads
                 /\ (e.ph = "work" /\ n.tool = "paths") => Works(hist) < MaxLoads   \* one search per document
+                /\ (e.ph = "work" /\ n.tool = "merge" /\ st.pc # "Work") => Works(hist) < MaxLoads   \* (further documents of a stream)
+\* only yaml-merge and yaml-diff have policy options
+Plain(e) == e.ph = "args" /\ e.ok /\ st.tool \notin {"merge", "diff"} => (e.cli = NoPol /\ e.cfg = NoPol)
 Take(e) == LET n == Step(st, e)
-           IN n.pc # "REJECT" /\ Within(n, e) /\ n # st /\ Len(hist) < MaxLen
+           IN n.pc # "REJECT" /\ Within(n, e) /\ Plain(e) /\ n # st /\ Len(hist) < MaxLen
               /\ st' = n /\ hist' = Append(hist, e)
 
 ParseArgs == \E e \in ArgsEv : Take(e)
@@ -83,6 +95,12 @@ InvRunHonest ==
     /\ st.tool = "diff" => ((st.code = 0) <=> (fine /\ Len(Evs("work")) = 1 /\ LastWork.k = "same"))
     /\ st.tool = "paths" => ((st.code = 0) <=> (fine /\ \A i \in 1..Len(Evs("work")) : Evs("work")[i].k # "badexpr"))
     /\ ~st.crash
+    \* every merge / comparison was made under: command line, else [defaults] of the configuration file, else built-in
+    /\ st.tool \in {"merge", "diff"} =>
+         \A i \in 1..Len(Evs("work")) : Evs("work")[i].k \in {"merge", "same", "differs"} =>
+            LET a == hist[1] w == Evs("work")[i] IN
+            \A k \in DOMAIN a.cli :
+               w.policy[k] = IF a.cli[k] # "" THEN a.cli[k] ELSE IF a.cfg[k] # "" THEN a.cfg[k] ELSE Builtin(st.tool, k)
     /\ st.tool = "merge" => ((st.code = 0) <=> (fine /\ \A i \in 1..Len(Evs("work")) : Evs("work")[i].res = "ok"))
     /\ st.tool = "merge" => ((st.code = 0) <=> (st.doc = "written"))
     /\ st.tool = "set" => ((st.code = 0) <=> (fine /\ Len(Evs("work")) >= 1 /\ LastWork.k = "apply" /\ LastWork.res = "ok"))
